@@ -154,6 +154,45 @@ func runSelfAudit(rules []string, repo, knownPath string) map[string]interface{}
 	}
 }
 
+// runBenignSweep applies the generic behaviour-preserving edits of tools/benign_sweep.py (whole packages at once,
+// through overlays) and runs the property's rules on each; evidence about the checker, never changes the exit code.
+func runBenignSweep(rules []string, repo string) map[string]interface{} {
+	tmp, err := os.CreateTemp("", "grulecheck-benign-*.json")
+	if err != nil {
+		return map[string]interface{}{"error": err.Error()}
+	}
+	tmp.Close()
+	defer os.Remove(tmp.Name())
+	script := filepath.Join(filepath.Dir(thoroughAuditDir), "tools", "benign_sweep.py")
+	cmd := exec.Command("python3", script, "-j", "6", "--rules", strings.Join(rules, ","), "--json", tmp.Name())
+	cmd.Env = append(os.Environ(), "VERIF_REPO="+repo)
+	_, _ = cmd.CombinedOutput()
+	b, err := os.ReadFile(tmp.Name())
+	if err != nil || len(b) == 0 {
+		return map[string]interface{}{"error": "benign sweep produced no result"}
+	}
+	var res struct {
+		Edits       int                      `json:"edits"`
+		WithReports int                      `json:"with_reports"`
+		Results     []map[string]interface{} `json:"results"`
+	}
+	if err := json.Unmarshal(b, &res); err != nil {
+		return map[string]interface{}{"error": err.Error()}
+	}
+	var notable []map[string]interface{}
+	for _, r := range res.Results {
+		if o, _ := r["outcome"].(string); o != "silent" {
+			notable = append(notable, r)
+		}
+	}
+	return map[string]interface{}{
+		"explanation":  "generic behaviour-preserving edits applied to every function of a whole package at once through an overlay (a println of the receiver, an empty deferred closure, a dead branch, unused fields and methods, other spellings of comparisons, errors returned through a local); every rule of this property has to stay silent on each",
+		"edits":        res.Edits,
+		"with_reports": res.WithReports,
+		"notable":      notable,
+	}
+}
+
 // runSeedReplay replays the stored seeded changes of the property through overlays (tools/seed_replay.py) and
 // summarises the outcome for the evidence file; like the self-audit it is evidence about the checker and never changes
 // the exit code of the check.
@@ -301,6 +340,7 @@ func run(prop, tier, repo, evDir, knownPath, overlayF, rulesF string, listObl bo
 	var audit map[string]interface{}
 	matrixViolations := 0
 	var seedReplay map[string]interface{}
+	var benign map[string]interface{}
 	if tier == "thorough" && goos == "" && goarch == "" && overlayF == "" && onlyKey == "" {
 		var mv []string
 		matrix, mv = runMatrix(prop, abs, knownPath)
@@ -317,6 +357,7 @@ func run(prop, tier, repo, evDir, knownPath, overlayF, rulesF string, listObl bo
 		if thoroughAuditDir != "" {
 			audit = runSelfAudit(rules, abs, knownPath)
 			seedReplay = runSeedReplay(prop, abs, knownPath)
+			benign = runBenignSweep(rules, abs)
 		}
 	}
 	wall := time.Since(start).Seconds()
@@ -330,6 +371,9 @@ func run(prop, tier, repo, evDir, knownPath, overlayF, rulesF string, listObl bo
 		}
 		if seedReplay != nil {
 			ev.Coverage["seeded_changes"] = seedReplay
+		}
+		if benign != nil {
+			ev.Coverage["generic_benign_edits"] = benign
 		}
 		ev.Violations += matrixViolations
 		if err := writeJSON(filepath.Join(evDir, prop+".json"), ev); err != nil {
